@@ -198,6 +198,27 @@ func RunCheck(o CheckOpts) int {
 	srs := SolveAll(g, header, results, outDir, o.Par, timeout, o.Tier == "thorough")
 	// static checks
 	staticRes := g.RunStatic(o, spec)
+	// recorded weakenings of the deepcopy predicate are findings, not silent exceptions
+	usesDeepcopy := false
+	for _, k := range keys {
+		for _, en := range g.CS.Funcs[k].Ensures {
+			if strings.Contains(en.Text, "deepcopy(") {
+				usesDeepcopy = true
+			}
+		}
+	}
+	if usesDeepcopy {
+		var sk []string
+		for k := range g.CS.Shared {
+			sk = append(sk, k)
+		}
+		sort.Strings(sk)
+		for _, k := range sk {
+			staticRes = append(staticRes, StaticResult{Name: "deepcopy-shares:" + k, OK: false,
+				Desc:   "deep copies share " + k + " with their source instead of copying it",
+				Detail: g.CS.Shared[k]})
+		}
+	}
 	nObl, nDis, nKnown, nViol := 0, 0, 0, 0
 	bySolver := map[string]int{}
 	var maxSecs float64
